@@ -81,7 +81,8 @@ Record Frame (c c' : ctl) : Prop := {
   fr_bwd : ops_bwd c c';
   fr_rinv : RInv c -> RInv c';
   fr_adm : adm c c';
-  fr_rec : Rec c -> Rec c'
+  fr_rec : Rec c -> Rec c';
+  fr_keep : forall rid, alist_get (records c) rid <> None -> alist_get (records c') rid <> None
 }.
 
 Lemma Frame_refl c : Frame c c.
@@ -116,6 +117,7 @@ Proof.
     + apply (fr_adm _ _ F _ _ H1).
     + right. eapply epoch_ok_bwd; eauto.
   - intros H. apply (fr_rec _ _ G), (fr_rec _ _ F), H.
+  - intros rid H. apply (fr_keep _ _ G), (fr_keep _ _ F), H.
 Qed.
 
 (* updates that leave the operator table alone *)
@@ -127,6 +129,7 @@ Proof.
   - intros id x Hx. exists x. unfold get_op in *. rewrite H4. auto using rel_refl.
   - intros id x Hx. exists x. unfold get_op in *. rewrite <- H4. auto using rel_refl.
   - intros R rid id st Hr. rewrite H7 in Hr. destruct (R _ _ _ Hr) as (o & Ho & Hrest). exists o. unfold get_op in *. rewrite H4. auto.
+  - intros rid H. rewrite H7. exact H.
 Qed.
 
 Lemma adm_same c c' : running c' = running c -> adm c c'.
@@ -165,6 +168,7 @@ Proof.
     assert (Hend' : is_end_status (o_st o) = true) by (rewrite Hst; exact Hend).
     pose proof (reach_from_end _ _ Hend' R9) as Est.
     split; [congruence|]. split; [exact Hend|congruence].
+  - intros rid H. exact H.
 Qed.
 
 Lemma frame_send c ms : Frame c (send c ms).
@@ -227,6 +231,7 @@ Proof.
     destruct (o_rid o =? rid) eqn:E.
     + apply Z.eqb_eq in E. inversion Hr; subst id st. exists o. repeat split; auto.
     + destruct (Rc _ _ _ Hr) as (x & Hx & Hrest). exists x. split; [exact Hx|exact Hrest].
+  - intros rid H. cbn [records upd]. rewrite alist_get_set. destruct (o_rid o =? rid); [discriminate|exact H].
 Qed.
 
 Lemma frame_bury c id : Frame c (bury c id).
